@@ -1,6 +1,8 @@
 import Driver.Common
 import UralModel.Model.LinksFromHtml
 import UralModel.Model.UrlsFromHtml
+import UralModel.Py.Re
+import UralModel.Gen.HtmlRe
 /-!
 Driver handler for C17 (`urls_from_html`, `links_from_html`).
 
@@ -74,8 +76,28 @@ def missingBool (E : Env) (j : Json) (cfg : Cfg) (base : Str) (hrefs : List Str)
       | .ok u => if hasKey (field j "isurl") u then none else some "missing:isurl"
       | .error _ => none
 
+/-- `[m.span() for m in URL_IN_HTML_RE.finditer(doc)]` by the hand-written scanner
+(`matchAnchor` of the model, iterated exactly as `urlsFinditer` does) -/
+def handSpans (n : Nat) : Nat → List Char → List (Nat × Nat)
+  | 0, _ => []
+  | _, [] => []
+  | fuel + 1, t :: ts =>
+    match matchAnchor (t :: ts) with
+    | some m => (n - (ts.length + 1), n - m.2.length) :: handSpans n fuel m.2
+    | none => handSpans n fuel ts
+
+def jspans (xs : List (Nat × Nat)) : Json := jlist (xs.map fun (a, b) => jlist [jnat a, jnat b])
+
 def handle (f : String) (j : Json) : Option Json :=
   match f with
+  | "anchor_spans" =>
+    -- three-way comparison: real `re` (harness) / generic interpreter of `Py/Re.lean` on the
+    -- regenerated term / hand-written scanner
+    let doc := chars (fieldStr j "doc")
+    some (Json.mkObj [("hand", jspans (handSpans doc.length (doc.length + 1) doc)),
+      ("interp", match Ural.Gen.HtmlRe.urlInHtmlRe with
+        | some r => jspans (Ural.Py.Re.finditer r doc)
+        | none => .str "untranslatable")])
   | "urls_from_html" =>
     some (outUrls (.ok (urlsFromHtmlStr unescapeBasic (chars (fieldStr j "doc")))))
   | "urls_from_html_bytes" =>
